@@ -25,7 +25,7 @@ var gtWS = []string{" ", " ", " ", "\t", "  ", " \t", " ", " ", "\t\t ", "\v"
 var gtKeys = []string{"a", "goos", "pkg", "k-1", "é", "ключ", "x/y", "a.b", "cpu", "b", "a\x00b", "z\xff", "unit", "benchmark", "u"}
 var gtVals = []string{"1", "2", "linux", "darwin", "Intel(R) Core(TM) i7", "x  y", "v:1", "é世", "a\tb", "key: value", "Benchmark", "-", "0", "trail  ", "\xffbad", "a b", "BenchmarkX 1 1 ns/op", "Unit ns/op a=b", "\u00a0nb", "nb\u00a0", "vt\v", "\u3000wide\u3000", "c\x1bl"}
 var gtSeps = []string{": ", ": ", ":\t", ":  ", ": \t ", ":\t\t"}
-var gtNames = []string{"X", "Y", "Foo/bar", "Foo/k=v/j=w-8", "é", "世/x=1", "\xff", "", "A-16", "A/-", "Sub/a=b/c", "*", "X:y", "Esc\x1b[1m", "N\x00ul", "US\x1fx"}
+var gtNames = []string{"X", "Y", "Foo/bar", "Foo/k=v/j=w-8", "é", "世/x=1", "\xff", "", "A-16", "A/-", "Sub/a=b/c", "*", "X:y", "Esc\x1b[1m", "N\x00ul", "US\x1fx", "x", "lower/case", "ing", "Benchmark", "BenchmarkTwice-4", "_under", "1"}
 var gtUnits = []string{"ns/op", "MB/s", "B/op", "allocs/op", "ns/ns", "MB*ns/op", "foo-ns", "xns", "custom", "ns", "sec/op", "B/s", "ns/MB", "é/op", "\xfe/op", "a=b", "u\x1f/op", "\x01ns", "\x1cs/op"}
 var gtNums = []string{"1", "0", "5", "100", "1.5", "-3", "+7", "1e9", "1e-9", "0x1p-2", "inf", "+Inf", "-inf", "NaN", "nan", "-0", "1e308", "4.9e-324",
 	"123456789012345678", "9223372036854775807", "9223372036854775808", "9999999999999999999", "18446744073709551616", "1234567890123456789", "0.1", ".5", "5.", "0x_1p-2", "00012", "2.5e+3"}
